@@ -16,11 +16,13 @@ from fdtdx.objects.device.parameters.discrete import ConnectHolesAndStructures, 
 CFG = None
 
 
-def module(cls, shape, **kw):
+def module(cls, shape, rev=False, **kw):
     global CFG
     if CFG is None:
         CFG = fdtdx.SimulationConfig(time=1e-13, grid=fdtdx.UniformGrid(spacing=1e-7), backend="cpu", dtype=jnp.float32)
     mats = {"air": fdtdx.Material(permittivity=1.0), "poly": fdtdx.Material(permittivity=2.25)}
+    if rev:      # insertion order of the materials dict is arbitrary: parameters are encoded in ascending-permittivity order whatever the dict order
+        mats = {"poly": mats["poly"], "air": mats["air"]}
     return cls(**kw).init_module(config=CFG, materials=mats, matrix_voxel_grid_shape=tuple(shape),
                                  single_voxel_size=(1e-7,) * 3, output_shape={"params": tuple(shape)})
 
@@ -30,15 +32,15 @@ FUNS = {"polymer": "compute_polymer_connection", "air": "compute_air_connection"
         "connect": "connect_holes_and_structures"}
 
 
-def jitted(kind, shape):
+def jitted(kind, shape, rev=False):
     """one compiled function per (kind, shape): the transforms are used under jit in practice, and
     un-jitted while/fori loops recompile on every call"""
-    key = (kind, tuple(shape))
+    key = (kind, tuple(shape), bool(rev))
     if key not in JIT:
         if kind in FUNS:
             JIT[key] = jax.jit(getattr(bt, FUNS[kind]))
         else:  # indices: 0 = air (background), 1 = polymer
-            mod = module(RemoveFloatingMaterial if kind == "remove_module" else ConnectHolesAndStructures, shape)
+            mod = module(RemoveFloatingMaterial if kind == "remove_module" else ConnectHolesAndStructures, shape, rev=rev)
             JIT[key] = jax.jit(lambda p: mod({"params": p})["params"])
     return JIT[key]
 
@@ -47,7 +49,7 @@ def run(c):
     m = np.asarray(c["m"], dtype=bool).reshape(c["shape"])
     k = c["kind"]
     try:
-        f = jitted(k, c["shape"])
+        f = jitted(k, c["shape"], rev=bool(c.get("rev_dict")))
         out = f(jnp.asarray(m)) if k in FUNS else f(jnp.asarray(m.astype(np.float32)))
     except ValueError as e:
         return {"error": "ValueError: " + str(e)[:100]}
